@@ -9,6 +9,16 @@ from .core import SInt, SBool, SBytes, SBytesBase, ENGINE
 
 error = _real.error
 calcsize = _real.calcsize
+
+
+def unpack_from(fmt, buffer, offset=0):
+    if not isinstance(buffer, SBytesBase):
+        return _real.unpack_from(fmt, buffer, offset)
+    n = _real.calcsize(fmt)
+    off = offset.__index__()
+    if len(buffer) - off < n:
+        raise error("unpack_from requires a buffer of at least %d bytes" % n)
+    return unpack(fmt, buffer[off:off + n])
 _SIZES = {"b": (1, True), "B": (1, False), "h": (2, True), "H": (2, False),
           "i": (4, True), "I": (4, False), "l": (4, True), "L": (4, False)}
 
@@ -20,6 +30,9 @@ def _parse(fmt):
         order, body = fmt[0], fmt[1:]
     items, off = [], 0
     for ch in body:
+        if ch == "x":  # pad byte: takes space, no value
+            off += 1
+            continue
         if ch not in _SIZES or (order == "@" and ch in "lL"):
             raise NotImplementedError("struct format %r" % fmt)
         size, signed = _SIZES[ch]
